@@ -255,7 +255,10 @@ Lemma gt_window_witness :
     /\ (forall b, In b wit_gt_chain -> get_block st (b_hash b) = Some (mkSB b true))
     /\ chain_ok wit_gt_U (rev wit_gt_chain)
     /\ length (firstn 6 (skipn 1 wit_gt_chain)) = 6%nat
-    /\ countb b_gt (firstn 6 (skipn 1 wit_gt_chain)) = 1.
+    /\ countb b_gt (firstn 6 (skipn 1 wit_gt_chain)) = 1
+    (* the same blocks offered one by one on their own: block 16 is refused *)
+    /\ (exists st5 st6, deliver wit_cfg (init wit_cfg) (firstn 5 wit_gt_chain) = Ok st5
+          /\ add_block wit_cfg st5 (wB 16 15 6 1 false true) = Ok (st6, Invalid)).
 Proof.
   eexists.
   split; [vm_compute; reflexivity|]. split; [vm_compute; reflexivity|].
@@ -268,7 +271,8 @@ Proof.
     split; [cbn [In]; tauto|]. split; [reflexivity|]. split; [|exact I].
     intros p Hp. cbn [In] in Hp. cbn [b_prev].
     repeat (destruct Hp as [<-|Hp]; [cbn [b_hash]; discriminate|]). contradiction. }
-  split; reflexivity.
+  split; [reflexivity|]. split; [reflexivity|].
+  eexists. eexists. split; vm_compute; reflexivity.
 Qed.
 
 (* (c) Blockchain.last_block_id / last_block_hash are only raised, never restored:
@@ -289,4 +293,60 @@ Lemma last_hash_stale_witness :
 Proof.
   eexists. split; [vm_compute; reflexivity|]. split; [vm_compute; reflexivity|].
   repeat split; vm_compute; reflexivity.
+Qed.
+
+(* ------------------------------------------------------------------ *)
+(* a worked universe: transfers, two forks, rejected blocks            *)
+(* ------------------------------------------------------------------ *)
+Definition ex_cfg : cfg := (5, false).
+Definition ex_U : list blk :=
+  [ mkB 1 0 1 10 true true [([], [10; 11; 12])];
+    mkB 2 1 2 10 true true [([10], [20; 21])];
+    mkB 3 2 3 10 true true [([20; 11], [30])];
+    (* fork b: spends 10 again, later adopted *)
+    mkB 12 1 2 10 true true [([10], [40])];
+    mkB 13 12 3 10 true true [([40], [41; 42])];
+    mkB 14 13 4 10 true true [([41; 12], [43])];
+    mkB 15 14 5 10 true false [([43], [44])];
+    (* invalid child of the tip *)
+    mkB 24 3 4 10 true false [([99], [98])];
+    (* fork d: MIDDLE block invalid, heavy last block *)
+    mkB 32 1 2 5 true true [([11], [50])];
+    mkB 33 32 3 5 true false [];
+    mkB 34 33 4 5 true true [];
+    mkB 35 34 5 50 true true [];
+    (* fork e: FIRST block invalid *)
+    mkB 42 1 2 5 true false [];
+    mkB 43 42 3 5 true true [];
+    mkB 44 43 4 50 true true [];
+    (* fork f: LAST block invalid *)
+    mkB 52 1 2 5 true true [([12], [60])];
+    mkB 53 52 3 5 true true [([60], [61])];
+    mkB 54 53 4 50 true false [] ].
+Definition ex_order : list N :=
+  [1; 2; 3; 24; 32; 33; 34; 35; 42; 43; 44; 52; 53; 54; 12; 13; 14; 15; 2].
+
+(* result code and step counter of every delivery *)
+Definition ex_results : list (list N) :=
+  map (fun rows => match rows with a :: _ => a | _ => [] end) (run_trace ex_cfg ex_U ex_order).
+
+(* (d) with initial_loading_completed: once the very first block offered has been
+   rejected (the store is empty again but the ring is marked non-empty), a valid root
+   whose previous-block hash is not zero is never adopted: the hypothesis
+   [ring_empty st = true \/ b_prev b = 0 \/ snd c = false] of adopts_first is needed *)
+Definition wit_boot_cfg : cfg := (5, true).
+Definition wit_boot_U : list blk := [wB 1 0 1 1 true false; wB 2 77 3 1 true true].
+
+Lemma bootstrap_after_rejected_first_witness :
+  exists st st',
+    history_check wit_boot_cfg wit_boot_U [1; 2] = true
+    /\ deliver wit_boot_cfg (init wit_boot_cfg) [wB 1 0 1 1 true false] = Ok st
+    /\ blocks st = [] /\ ring_empty st = false
+    /\ is_root wit_boot_U (wB 2 77 3 1 true true)
+    /\ add_block wit_boot_cfg st (wB 2 77 3 1 true true) = Ok (st', Retry) /\ st' = st.
+Proof.
+  eexists. eexists. split; [vm_compute; reflexivity|]. split; [vm_compute; reflexivity|].
+  split; [reflexivity|]. split; [reflexivity|]. split.
+  { apply is_root_b_ok. vm_compute. reflexivity. }
+  split; vm_compute; reflexivity.
 Qed.
